@@ -425,8 +425,12 @@ class C13(PokerProp):
                 why.append(f"complete hand has street {last_o['street']} / payouts {last_o['pay']}")
         elif last_o is not None and not why:
             # the play-out stopped although the hand is open: the engine offered no usable action
+            # (paths of the exhaustive small-scope trees may be cut at the depth limit: only a node where the engine
+            # accepted none of the candidates -- `_stuck` -- counts there)
             real = [e for e in evs if e.kind == "act"]
-            if real and real[-1].ri == "ok" and len(real) < 400:
+            if case.get("_tree") and not case.get("_stuck"):
+                pass
+            elif (real and real[-1].ri == "ok" and len(real) < 400) or case.get("_stuck"):
                 why.append("hand still in progress but the engine offered no legal action (valid_actions/min_bet/max_bet unusable)")
         return why
 
